@@ -7,6 +7,7 @@ decision prefix (no state copying).  Loops are cut by the sidecar invariants, ca
 Every proof obligation is recorded as (name, hypotheses, goal) and discharged later (pyvc.smt).
 """
 import ast
+import os
 import itertools
 from fractions import Fraction
 
@@ -296,6 +297,12 @@ class Executor:
         if raised is not None:
             posts = c.post_raise(S, old, entry, raised.exc_name) if hasattr(c, "post_raise") else None
             if posts is None:
+                if getattr(c, "total", False) or os.environ.get("PYVC_ALL_TOTAL"):
+                    # contract flag `total`: under the precondition the function returns normally (an exceptional exit would make every
+                    # postcondition hold vacuously); the obligation is "this raising path is infeasible"
+                    self.oblige("returns-normally#%s@L%d" % (raised.exc_name, getattr(raised.node, "lineno", self.fn.lineno) - self.fn.lineno), False, raised.node, "safety", keep=False)
+                    return
+                self.assumed.append("exceptional exit (%s) establishes nothing: partial correctness" % raised.exc_name)
                 raise PathEnd()   # partial correctness: an exceptional exit establishes nothing
             for item in posts:
                 cl = clause(item)
